@@ -1,8 +1,9 @@
-//! Harness bodies shared between Kani (symbolic inputs) and the native replay binary (concrete inputs).
+//! Harness bodies shared between Kani (symbolic inputs), the native bounded-exhaustive search and the native replay.
 //!
-//! Every property assertion carries a unique marker message starting with `VF:`; only those are interpreted
-//! as verdicts by the runner.  Any other failed check located in the crate under test (overflow, index, ...)
-//! is reported as "panic in code under test" where the property forbids panics.
+//! Every harness takes a slice of `u64` arguments.  `pre` restricts them (the *stated bound*), `doms` lists the values the
+//! native search enumerates per argument, `run` is the body.  Every property assertion carries a unique marker message
+//! starting with `VF:`; only those are verdicts.  A panic raised by the code under test is a violation too, unless the
+//! harness declares `panic_ok` (fail-stop behaviour is what the property demands there).
 #![allow(clippy::all)]
 
 /// Property assertion.
@@ -36,10 +37,60 @@ macro_rules! vcover {
     }};
 }
 
-pub mod slice;
-pub mod stride;
+pub struct H {
+    pub name: &'static str,
+    /// properties this harness is a bounded stand-in for
+    pub props: &'static [&'static str],
+    pub nargs: usize,
+    pub pre: fn(&[u64]) -> bool,
+    pub doms: fn() -> Vec<Vec<u64>>,
+    pub run: fn(&[u64]),
+    pub panic_ok: bool,
+    /// the stated bound, in words
+    pub bound: &'static str,
+    /// has a `#[kani::proof]` twin
+    pub kani: bool,
+}
 
-/// Boundary alphabet used by the native counterexample search.
+/// Declares the Kani twin of a registered harness: N symbolic u64 arguments constrained by `pre`.
+#[macro_export]
+macro_rules! kani_twin {
+    ($name:ident, $n:expr, $pre:path, $run:path, $unwind:expr) => {
+        #[cfg(kani)]
+        #[kani::proof]
+        #[kani::unwind($unwind)]
+        fn $name() {
+            let v: [u64; $n] = kani::any();
+            kani::assume($pre(&v));
+            $run(&v);
+        }
+    };
+}
+
+pub mod util;
+pub mod stride;
+pub mod slice;
+pub mod regions;
+pub mod life;
+pub mod more;
+pub mod codecs;
+
+pub fn registry() -> Vec<H> {
+    let mut v = Vec::new();
+    v.extend(stride::harnesses());
+    v.extend(slice::harnesses());
+    v.extend(regions::harnesses());
+    v.extend(life::harnesses());
+    v.extend(more::harnesses());
+    v.extend(codecs::harnesses());
+    v
+}
+
+pub fn find(name: &str) -> Option<H> {
+    registry().into_iter().find(|h| h.name == name)
+}
+
+/// Boundary alphabet used by the native search for full-width arguments.
 pub fn boundary() -> Vec<u64> {
     let mut v = vec![0u64, 1, 2, 3, 4, 5, 7, 8, 255, 256, 65536];
     for p in [31u32, 32, 62, 63] {
@@ -50,44 +101,4 @@ pub fn boundary() -> Vec<u64> {
     v.push(u64::MAX - 1);
     v.push(u64::MAX);
     v
-}
-
-/// Replay entry: run harness `name` on concrete inputs (in the order of the harness's `kani::any()` calls).
-pub fn dispatch(name: &str, v: &[u64]) -> bool {
-    match name {
-        "stride_push_contract" if v.len() == 5 => stride::check_push(v[0] as u8, v[1] as usize, v[2] as usize, v[3] as usize, v[4] as usize),
-        "stride_index_contract" if v.len() == 5 => stride::check_index(v[0] as u8, v[1] as usize, v[2] as usize, v[3] as usize, v[4] as usize),
-        "slice_get_oob" if v.len() == 4 => slice::check_get(v[0] as usize, v[1] as usize, v[2] as usize, v[3] as usize),
-        "slice_get_owned_oob" if v.len() == 2 => slice::check_get_owned(v[0] as usize, v[1] as usize),
-        _ => return false,
-    }
-    true
-}
-
-/// Harnesses in which a panic raised by the code under test is the *required* behaviour for some inputs (fail-stop
-/// accessors); only `VF:` marker assertions are verdicts there.
-pub fn panic_allowed(name: &str) -> bool {
-    matches!(name, "slice_get_oob" | "slice_get_owned_oob")
-}
-
-/// Harness precondition on concrete inputs (so that the search does not count rejected inputs).
-pub fn pre(name: &str, v: &[u64]) -> bool {
-    match name {
-        "stride_push_contract" => stride::pre_push(v[0] as u8, v[1] as usize, v[2] as usize, v[3] as usize),
-        "stride_index_contract" => stride::pre_index(v[0] as u8, v[1] as usize, v[2] as usize, v[3] as usize, v[4] as usize),
-        "slice_get_oob" => v[0] <= 3 && v[1] <= 3 && v[2] < 2,
-        "slice_get_owned_oob" => v[0] <= 3,
-        _ => true,
-    }
-}
-
-/// Per-argument search domains.
-pub fn domains(name: &str) -> Option<Vec<Vec<u64>>> {
-    let b = boundary();
-    match name {
-        "stride_push_contract" | "stride_index_contract" => Some(vec![vec![0, 1, 2, 3], b.clone(), b.clone(), b.clone(), b]),
-        "slice_get_oob" => Some(vec![vec![0, 1, 2, 3], vec![0, 1, 2, 3], vec![0, 1], b]),
-        "slice_get_owned_oob" => Some(vec![vec![0, 1, 2, 3], b]),
-        _ => None,
-    }
 }
